@@ -4,6 +4,9 @@ import ClaripyProofs.Lemmas.Solver.CachelessExtrema
 -/
 namespace Claripy.Solver
 
+/-- the invariant without a carried property -/
+abbrev CLInv0 (U : List Con) (s : St) : Prop := CLInv (fun _ _ _ => True) U s
+
 /-- **Registry** (hash-consing, C06): among the constraints a run can see — the user's, `false`, the simplifier's
 output — equal ids mean equal meaning; all of them are well formed -/
 structure Reg (R : Con → Prop) (E : Env) : Prop where
@@ -247,8 +250,8 @@ theorem filtered_equiv {E : Env} {R : Con → Prop} (hR : Reg R E) {self : Ops} 
       simp [holdsAll, hR.falseSem a]
 
 theorem clAdd_spec {E : Env} {R : Con → Prop} (hR : Reg R E) {self : Ops} (hs : SelfOk self) (U : List Con) (s : St)
-    (h : CLInv U s) (hd : DInv R U s) (cs : List Con) (hcs : ∀ c ∈ cs, R c) (inv : Bool) :
-    ∃ added s', clAdd E self cs inv s = (.ok added, s') ∧ CLInv (U ++ cs) s' ∧ DInv R (U ++ cs) s' := by
+    (h : CLInv0 U s) (hd : DInv R U s) (cs : List Con) (hcs : ∀ c ∈ cs, R c) (inv : Bool) :
+    ∃ added s', clAdd E self cs inv s = (.ok added, s') ∧ CLInv0 (U ++ cs) s' ∧ DInv R (U ++ cs) s' := by
   unfold clAdd
   obtain ⟨hecR, hecEq⟩ := filtered_equiv hR hs cs hcs
   generalize filteredOf E self cs = ec at hecR hecEq ⊢
@@ -266,7 +269,7 @@ theorem clAdd_spec {E : Env} {R : Con → Prop} (hR : Reg R E) {self : Ops} (hs 
       subst this
       simp only [List.isEmpty_nil, Bool.not_true, Bool.false_eq_true, ↓reduceIte, pure, M.pure]
       have hU' : ∀ a, holdsAll (U ++ cs) a = holdsAll U a := by intro a; rw [hU a]; simp [holdsAll]
-      refine ⟨[], s, rfl, ⟨h.core, fun a => by rw [hU' a]; exact h.equiv a⟩, ⟨hd.consR, fun c hc hi a ha => hd.seen c hc hi a (by rw [← hU' a]; exact ha)⟩⟩
+      refine ⟨[], s, rfl, ⟨h.core, fun a => by rw [hU' a]; exact h.equiv a, trivial⟩, ⟨hd.consR, fun c hc hi a ha => hd.seen c hc hi a (by rw [← hU' a]; exact ha)⟩⟩
     · simp only [hece, Bool.not_false, ↓reduceIte]
       obtain ⟨new, s', heq, had⟩ := dedupAdd_spec ec s
       refine ⟨new, s', heq, ?_, ?_⟩
@@ -295,7 +298,7 @@ theorem clAdd_spec {E : Env} {R : Con → Prop} (hR : Reg R E) {self : Ops} (hs 
             · rfl
             · have := hsubsem a hea; simp [hna] at this
           · exact (hcov a hUa hna).symm
-      · refine ⟨⟨?_, ?_, ?_, ?_⟩, hcons⟩
+      · refine ⟨⟨?_, ?_, ?_, ?_⟩, hcons, trivial⟩
         · intro a ha
           rw [had.cons, holdsAll_append] at ha
           rw [had.toAdd, holdsAll_append]
@@ -379,8 +382,13 @@ theorem clStage_simplify (E : Env) (k : Nat) (s : St) :
     · simp [hemp, pure, M.pure, M.bind, M.modifyFe_apply, M.getFe_apply]
     · simp [hemp, M.bind, M.get_apply, M.modify_apply, pure, M.pure, M.modifyFe_apply, M.getFe_apply]
 
-theorem clSimplify_spec {E : Env} {R : Con → Prop} (hR : Reg R E) (hS : SimplifyEquiv E) (U : List Con) (s : St)
-    (h : CLInv U s) (hd : DInv R U s) : CLInv U (clSimplifySt E s).2 ∧ DInv R U (clSimplifySt E s).2 := by
+/-- **SimplifyEquiv on the registry** (C09): on constraints of the registry `claripy.simplify` returns an equivalent
+conjunction (that its output is in the registry again is `Reg.simp_closed`) -/
+def SimpOn (R : Con → Prop) (E : Env) : Prop :=
+  ∀ cs k, (∀ c ∈ cs, R c) → ∀ a, holdsAll (E.simp cs k) a = holdsAll cs a
+
+theorem clSimplify_spec {E : Env} {R : Con → Prop} (hR : Reg R E) (hS : SimpOn R E) (U : List Con) (s : St)
+    (h : CLInv0 U s) (hd : DInv R U s) : CLInv0 U (clSimplifySt E s).2 ∧ DInv R U (clSimplifySt E s).2 := by
   -- recording the ids of constraints equivalent to U keeps the deduplication invariant
   have hseen : ∀ (cons : List Con), (∀ c ∈ cons, R c) → (∀ a, holdsAll cons a = holdsAll U a) →
       ∀ c, R c → (c.id ∈ listUnion s.fe.hashes (cons.map (·.id)) ∨ c.id ∈ s.fe.woAnnot) →
@@ -398,19 +406,19 @@ theorem clSimplify_spec {E : Env} {R : Con → Prop} (hR : Reg R E) (hS : Simpli
   cases hsimp : s.fe.simplified with
   | true =>
     simp only [↓reduceIte]
-    exact ⟨⟨⟨h.core.toAdd_sub, h.core.obj, h.core.noReuse, h.core.untracked⟩, h.equiv⟩,
+    exact ⟨⟨⟨h.core.toAdd_sub, h.core.obj, h.core.noReuse, h.core.untracked⟩, h.equiv, trivial⟩,
            ⟨hd.consR, hseen s.fe.constraints hd.consR h.equiv⟩⟩
   | false =>
     simp only [Bool.false_eq_true, ↓reduceIte]
     by_cases hemp : s.fe.constraints.isEmpty = true
     · simp only [hemp, ↓reduceIte]
-      exact ⟨⟨⟨fun a _ => rfl, fun r hr => by simp at hr, h.core.noReuse, h.core.untracked⟩, h.equiv⟩,
+      exact ⟨⟨⟨fun a _ => rfl, fun r hr => by simp at hr, h.core.noReuse, h.core.untracked⟩, h.equiv, trivial⟩,
              ⟨hd.consR, hseen s.fe.constraints hd.consR h.equiv⟩⟩
     · simp only [hemp, Bool.false_eq_true, ↓reduceIte]
-      obtain ⟨heq, hwf⟩ := hS s.fe.constraints s.tick
+      have heq := hS s.fe.constraints s.tick hd.consR
       have hoR := hR.simp_closed s.fe.constraints s.tick hd.consR
       have hequ : ∀ a, holdsAll (E.simp s.fe.constraints s.tick) a = holdsAll U a := fun a => by rw [heq a, h.equiv a]
-      exact ⟨⟨⟨fun a _ => rfl, fun r hr => by simp at hr, h.core.noReuse, h.core.untracked⟩, hequ⟩,
+      exact ⟨⟨⟨fun a _ => rfl, fun r hr => by simp at hr, h.core.noReuse, h.core.untracked⟩, hequ, trivial⟩,
              ⟨hoR, hseen _ hoR hequ⟩⟩
 
 /-- FullFrontend.downsize (the mixins of this class do not override it) -/
@@ -418,9 +426,9 @@ def clDownsizeSt (s : St) : St := { s with fe := { s.fe with solver := none, toA
 
 theorem clStage_downsize (E : Env) (k : Nat) (s : St) : (clStage E (k + 1)).downsize s = (.ok (), clDownsizeSt s) := rfl
 
-theorem clDownsize_spec {R : Con → Prop} (U : List Con) (s : St) (h : CLInv U s) (hd : DInv R U s) :
-    CLInv U (clDownsizeSt s) ∧ DInv R U (clDownsizeSt s) :=
-  ⟨⟨⟨fun a _ => rfl, fun r hr => by simp [clDownsizeSt] at hr, h.core.noReuse, h.core.untracked⟩, h.equiv⟩,
+theorem clDownsize_spec {R : Con → Prop} (U : List Con) (s : St) (h : CLInv0 U s) (hd : DInv R U s) :
+    CLInv0 U (clDownsizeSt s) ∧ DInv R U (clDownsizeSt s) :=
+  ⟨⟨⟨fun a _ => rfl, fun r hr => by simp [clDownsizeSt] at hr, h.core.noReuse, h.core.untracked⟩, h.equiv, trivial⟩,
    ⟨hd.consR, hd.seen⟩⟩
 
 end Claripy.Solver
